@@ -520,7 +520,16 @@ func (s *Session) Serve(h Handler) (err error) {
 		verifhook.Yield("serve.loop", "")
 		select {
 		case <-inCtx.Done():
-			return inCtx.Err()
+			// SetCloseDeadline replaces the context and cancels the one it
+			// replaced; only a context that is still current means that the
+			// input stream was closed or that the close deadline has passed.
+			s.stateMutex.RLock()
+			current := s.in.ctx == inCtx
+			s.stateMutex.RUnlock()
+			if current {
+				return inCtx.Err()
+			}
+			continue
 		default:
 		}
 		err := handleInputStream(s, h)
